@@ -377,6 +377,16 @@ func genCall(t *rapid.T, prop string, nSharedP, nSharedF int) Call {
 		if c.CodeMode == 3 {
 			c.Str = rapid.StringMatching(`[0-9]{0,11}`).Draw(t, "codeStr")
 		}
+		if (c.Op == "ValidateHOTP" || c.Op == "ValidateTOTP") && weighted(t, "zeroDigits?", 15, 1) == 1 {
+			// a zero-valued Digits field in an otherwise filled-in Param: legal for
+			// validation (any non-empty code is simply of the wrong length)
+			c.Param.Digits = 0
+			c.CodeMode = 3
+			c.Str = rapid.StringMatching(`[0-9]{1,8}`).Draw(t, "codeStrNonEmpty")
+			if c.PMode >= 2 {
+				c.PMode = 0
+			}
+		}
 	case "GenerateOCRA", "ValidateOCRA", "InputValidate":
 		c.Secret = genSecret(t)
 		c.Spell = rapid.IntRange(0, 5).Draw(t, "spell")
